@@ -1,5 +1,5 @@
 """C17 — reused comparison targets carry nothing over (the history clause is decided by typestate)."""
-from ..rules import typestate, fields, vis, eqord, witness, casts
+from ..rules import validate, typestate, fields, vis, eqord, witness, casts
 
 EXPL = ("Decides the history clause: typestate Zero/Unknown over the 64xu64 occupancy-mask arrays of FuzzyHashCompareTarget (two "
         "locations, through the block_hash_K_mut views) and BlockHashPositionArray, with effects inferred from bodies (Clear = whole "
@@ -27,6 +27,7 @@ def run(ctx):
         ctx.guard("C17", "like", lambda: fields.like_index(ctx, prog, scope=r"internals::compare::|<internals::compare::", floor=3))
         ctx.guard("C17", "complete", lambda: fields.dest_complete(ctx, prog, scope=r"internals::compare::|<internals::compare::", floor=1))
         ctx.guard("C17", "vis", lambda: vis.representation_private(ctx, prog))
+        ctx.guard("C17", "panic-pure", lambda: validate.panic_purity(ctx, prog))
         ctx.guard("C17", "casts", lambda: casts.census(ctx, prog, scope='compare::position_array::', floor=3))
     if ctx.tier == "thorough":
         ctx.cfg = "witness"
